@@ -238,20 +238,34 @@ type hist struct {
 	lastAddSize      uint64      // its expected slot size (0 = unknown)
 
 	fEvict, fReplace, fLimbo, fReinject, fReopen, fGapped, fFinal, fTipDrop, fReorg, fOverdraft bool
+
+	// eviction-focused family (evict.go): mostly Adds - appends with fee caps around the current
+	// fees and replacements in multi-tx accounts - over a pool that is full most of the time
+	focus              bool
+	replSinceReset     int // accepted replacements in accounts with >= 2 txs since the last Reset / reopen / tip change
+	fReplMulti         bool
+	fOverflowAfterRepl bool
 }
 
 func (h *hist) logf(format string, a ...any) { h.log = append(h.log, fmt.Sprintf(format, a...)) }
+
+func (h *hist) family() string {
+	if h.focus {
+		return "focus history"
+	}
+	return "history"
+}
 
 func (h *hist) witness() any {
 	l := h.log
 	if len(l) > 100 {
 		l = l[len(l)-100:]
 	}
-	return map[string]any{"history": h.idx, "ops": append([]string{}, l...)}
+	return map[string]any{"history": h.idx, "family": h.family(), "ops": append([]string{}, l...)}
 }
 
 func (h *hist) viol(fp, msg string) {
-	h.r.Violation(fp, fmt.Sprintf("history %d: %s", h.idx, msg), h.witness())
+	h.r.Violation(fp, fmt.Sprintf("%s %d: %s", h.family(), h.idx, msg), h.witness())
 }
 
 func (h *hist) addrName(a common.Address) string {
@@ -284,7 +298,11 @@ func (h *hist) hasPendingAuth(a common.Address) bool {
 }
 
 func newHist(e *env, idx int, stream, dir, ackPath string) *hist {
-	h := &hist{e: e, r: e.r, idx: idx, rng: e.r.Rand(stream, idx), dir: dir, gasTip: 1,
+	return newHistP(e, idx, stream, dir, ackPath, false)
+}
+
+func newHistP(e *env, idx int, stream, dir, ackPath string, focus bool) *hist {
+	h := &hist{e: e, r: e.r, idx: idx, rng: e.r.Rand(stream, idx), dir: dir, gasTip: 1, focus: focus,
 		authPending: map[common.Address]bool{}, byHash: map[common.Hash]*txInfo{}, limbo: map[common.Hash]uint64{}, limboCode: map[common.Hash]uint64{}, reincluded: map[common.Hash]bool{}, viaGapped: map[common.Hash]bool{}, viaReinject: map[common.Hash]bool{},
 		acked: map[common.Hash]bool{}, ever: map[common.Hash]bool{}, sizeOf: map[int]uint32{}}
 	h.ack = newAckLog(ackPath)
@@ -300,7 +318,16 @@ func newHist(e *env, idx int, stream, dir, ackPath string) *hist {
 			Delegated: i == 3 && h.rng.Intn(2) == 0,
 		}
 	}
-	h.ch = newChain(e.config, gen, 100, pick(h.rng, baseFeeLadder), excessFor(blobFeeLadder[h.rng.Intn(len(blobFeeLadder))]))
+	baseFee, blobFee := pick(h.rng, baseFeeLadder), blobFeeLadder[h.rng.Intn(len(blobFeeLadder))]
+	if focus {
+		// rich, undelegated accounts; fees in the middle of the ladders so that fee caps fall on both sides
+		h.walkAt = -1
+		for a, st := range gen {
+			gen[a] = acct{Nonce: st.Nonce, Balance: big.NewInt(balLadder[len(balLadder)-1])}
+		}
+		baseFee, blobFee = pick(h.rng, focusBaseFees), focusBlobFees[h.rng.Intn(len(focusBlobFees))]
+	}
+	h.ch = newChain(e.config, gen, 100, baseFee, excessFor(blobFee))
 	h.open()
 	return h
 }
@@ -461,6 +488,10 @@ func (h *hist) buildChild(parent *blk, cands []*txInfo) *blk {
 		}
 	}
 	var included []*types.Transaction
+	incl := 60
+	if h.focus {
+		incl = 30 // keep the pool full
+	}
 	for i := 0; i < nAccounts; i++ {
 		a := e.addrs[i]
 		l := by[a]
@@ -468,7 +499,7 @@ func (h *hist) buildChild(parent *blk, cands []*txInfo) *blk {
 		s := st[a]
 		touched := false
 		for _, ti := range l {
-			if ti.tx.Nonce() != s.Nonce || rng.Intn(100) >= 60 {
+			if ti.tx.Nonce() != s.Nonce || rng.Intn(100) >= incl {
 				if ti.tx.Nonce() > s.Nonce {
 					break
 				}
@@ -620,7 +651,12 @@ func (h *hist) end(s *blobpool.VerifSnapshot) {
 }
 
 func (h *hist) opAdd(real bool) {
-	ti := h.genTx()
+	var ti *txInfo
+	if h.focus {
+		ti = h.genTxFocus()
+	} else {
+		ti = h.genTx()
+	}
 	h.begin(fmt.Sprintf("add %s real=%v", h.txName(ti), real))
 	pre := h.prev
 	want := h.predict(pre, ti)
@@ -652,6 +688,7 @@ func (h *hist) opAdd(real bool) {
 	h.logf("  -> %s (model %s)", got, want)
 	h.r.Count("add_result_"+strings.SplitN(got, ":", 2)[0], 1)
 	h.judgeAdd(ti, pre, post, got, want)
+	h.judgeEviction(ti, pre, post, got)
 	h.prev = post
 	h.end(post)
 }
@@ -713,6 +750,7 @@ func (h *hist) opReset(reorg bool) {
 	h.writeHead()
 	pre := h.prev
 	h.shadowReset(pre, discarded, included)
+	h.replSinceReset = 0
 	h.pool.Reset(old.header, tip.header)
 	h.r.Count("op_"+kind, 1)
 	post := h.check(kind, pre)
@@ -727,6 +765,7 @@ func (h *hist) opResetSame() {
 	h.writeHead()
 	pre := h.prev
 	h.shadowReset(pre, nil, nil)
+	h.replSinceReset = 0
 	h.pool.Reset(hd.header, hd.header)
 	h.r.Count("op_reset_same", 1)
 	post := h.check("reset-same", pre)
@@ -740,6 +779,7 @@ func (h *hist) opSetTip() {
 	pre := h.prev
 	old := h.gasTip
 	h.gasTip = v
+	h.replSinceReset = 0
 	h.pool.SetGasTip(big.NewInt(v))
 	h.writeHead()
 	h.r.Count("op_settip", 1)
@@ -761,6 +801,7 @@ func (h *hist) opReopen() {
 		h.viol("close-failed", fmt.Sprintf("Close: %v", err))
 	}
 	h.ack.linef("CLOSE")
+	h.replSinceReset = 0
 	h.open()
 	h.poolMu.Unlock()
 	if h.dead {
@@ -863,6 +904,19 @@ func (h *hist) runWorkload(nOps, stopAfter int) {
 			}
 		}
 		panicked := r.Guard("op", h.witness(), func() {
+			if h.focus {
+				switch x := h.rng.Intn(100); {
+				case x < 85:
+					h.opAdd(false)
+				case x < 93:
+					h.opReset(false)
+				case x < 96:
+					h.opReset(true)
+				default:
+					h.opResetSame()
+				}
+				return
+			}
 			switch x := h.rng.Intn(100); {
 			case x < 59:
 				// one Add in about 250 goes through the full public path (cell computation and
@@ -898,7 +952,7 @@ func (h *hist) runWorkload(nOps, stopAfter int) {
 	}
 	if !h.dead && stopAfter < 0 {
 		h.begin("final check")
-		h.forceWalk = !r.Race()
+		h.forceWalk = !r.Race() && !h.focus
 		h.end(h.check("final", h.prev))
 		if err := h.pool.Close(); err != nil {
 			h.viol("close-failed", fmt.Sprintf("Close: %v", err))
@@ -908,6 +962,12 @@ func (h *hist) runWorkload(nOps, stopAfter int) {
 }
 
 func (h *hist) signature() string {
+	if h.focus {
+		if !(h.fEvict || h.fReplMulti) {
+			return ""
+		}
+		return fmt.Sprintf("focus/ev%v/rpm%v/oar%v/lb%v/ri%v/gp%v/fn%v/rg%v/od%v", h.fEvict, h.fReplMulti, h.fOverflowAfterRepl, h.fLimbo, h.fReinject, h.fGapped, h.fFinal, h.fReorg, h.fOverdraft)
+	}
 	if !(h.fEvict || h.fReplace || h.fLimbo || h.fReinject || h.fReopen) {
 		return ""
 	}
@@ -970,7 +1030,7 @@ func run(r *vrt.Run) {
 		pprof.StartCPUProfile(f)
 		defer pprof.StopCPUProfile()
 	}
-	r.Rule("each case is one history over a fresh BlobPool directory (Datacap 1.7 MB: 2-6 txs fit, bump 100%) and a harness chain with 4 accounts (one possibly delegated, pending-auth flag toggled): ops Add (cheap path ValidateTxBasics+AddPooledTx with precomputed cells; a few through the full Add with KZG), head advance with inclusions (also never-published blob txs), fee changes, reorgs 1-3 deep above finality, finality lag 0-4, SetGasTip, reset on the same head, Close+New/Init on the same directory; txs carry 1-3 of the precomputed blobs, nonces next/replacement/gapped/stale, fees around the 100% bump thresholds, values at the balance edge. Child flows run a history in a child process, stop it cleanly or abruptly at an operation boundary and reopen the directory in another child. A history is non-trivial if it showed eviction, replacement, limbo traffic, re-injection or a reopen; signature = vector of those flags plus gapped/finality/tip-drop/reorg/overdraft flags")
+	r.Rule("each case is one history over a fresh BlobPool directory (Datacap 1.7 MB: 2-6 txs fit, bump 100%) and a harness chain with 4 accounts (one possibly delegated, pending-auth flag toggled): ops Add (cheap path ValidateTxBasics+AddPooledTx with precomputed cells; a few through the full Add with KZG), head advance with inclusions (also never-published blob txs), fee changes, reorgs 1-3 deep above finality, finality lag 0-4, SetGasTip, reset on the same head, Close+New/Init on the same directory; txs carry 1-3 of the precomputed blobs, nonces next/replacement/gapped/stale, fees around the 100% bump thresholds, values at the balance edge. Child flows run a history in a child process, stop it cleanly or abruptly at an operation boundary and reopen the directory in another child. A history is non-trivial if it showed eviction, replacement, limbo traffic, re-injection or a reopen; signature = vector of those flags plus gapped/finality/tip-drop/reorg/overdraft flags. Eviction-focused histories (signature prefix focus/): 4 rich undelegated accounts, 40 ops, 85% Adds of which ~45% are valid replacements (bump x2..x8 per fee dimension) of tail / non-tail txs preferably in accounts with >=2 pooled txs and the rest appends with fee caps at 1/8..4x the pool's current base / blob fee, so the pool (6 one-blob txs) is full most of the time and almost every append overflows the Datacap; few head changes in between. After every operation the eviction heap (index map, population, heap order) is judged with a priority recomputed from each account's pooled transactions and the current fees by the documented policy; every capacity eviction is judged by the eviction-order oracle (victims = tails of minimal-priority accounts, ties allowed, no needless drop); non-trivial if it showed an eviction or a replacement in a multi-tx account")
 	nBlobs := 6
 	if r.Race() {
 		nBlobs = 2 // KZG under the race detector is ~10x slower
@@ -987,9 +1047,11 @@ func run(r *vrt.Run) {
 
 	nOps := 25
 	nChild := r.N(9, 150)
+	nFocus, nFocusOps := r.N(100, 4000), 40
 	if r.Race() {
 		nHist = r.N(4, 24)
 		nChild = r.N(0, 9) // cross-process flows add nothing under the race detector
+		nFocus = r.N(1, 6)
 	}
 	if v := os.Getenv("C42_HIST"); v != "" { // debugging aid: one history, verbose
 		i, _ := strconv.Atoi(v)
@@ -1001,8 +1063,24 @@ func run(r *vrt.Run) {
 		}
 		return
 	}
+	if v := os.Getenv("C42_FOCUS"); v != "" { // debugging aid: one eviction-focused history, verbose
+		i, _ := strconv.Atoi(v)
+		h := newHistP(e, i, "focus", filepath.Join(r.Scratch, "dbg"), "", true)
+		h.verbose = true
+		h.runWorkload(nFocusOps, -1)
+		for _, l := range h.log {
+			fmt.Println(l)
+		}
+		return
+	}
 	if v := os.Getenv("C42_NHIST"); v != "" {
 		nHist, _ = strconv.Atoi(v)
+	}
+	if v := os.Getenv("C42_NFOCUS"); v != "" {
+		nFocus, _ = strconv.Atoi(v)
+	}
+	if v := os.Getenv("C42_NCHILD"); v != "" {
+		nChild, _ = strconv.Atoi(v)
 	}
 	vrt.Par(nHist, 0, func(i int) {
 		dir := filepath.Join(r.Scratch, fmt.Sprintf("h%d", i))
@@ -1016,6 +1094,23 @@ func run(r *vrt.Run) {
 				l = l[:12]
 			}
 			r.Sample(map[string]any{"history": i, "signature": sig, "first_ops": l})
+		}
+		os.RemoveAll(dir)
+	})
+	// eviction-focused histories (evict.go)
+	vrt.Par(nFocus, 0, func(i int) {
+		dir := filepath.Join(r.Scratch, fmt.Sprintf("f%d", i))
+		h := newHistP(e, i, "focus", dir, "", true)
+		h.runWorkload(nFocusOps, -1)
+		sig := h.signature()
+		r.Eval(sig)
+		r.Count("focus_histories", 1)
+		if sig != "" && h.fOverflowAfterRepl && r.WantSample() {
+			l := h.log
+			if len(l) > 16 {
+				l = l[:16]
+			}
+			r.Sample(map[string]any{"focus_history": i, "signature": sig, "first_ops": l})
 		}
 		os.RemoveAll(dir)
 	})
@@ -1105,6 +1200,16 @@ func run(r *vrt.Run) {
 		r.Require("snapshots_checked", int64(nHist)*10)
 		return
 	}
+	// eviction order: heap monitor and eviction-order oracle must have had material
+	r.Require("heap_checks", int64(nHist+nFocus)*10)
+	r.Require("heap_checks_with_distinct_priorities", int64(nFocus)*5)
+	r.Require("replacements_in_multi_tx_accounts", int64(nFocus)*2)
+	r.Require("replacements_multi_nontail", int64(nFocus/2)+1)
+	r.Require("replacements_multi_tail", int64(nFocus/2)+1)
+	r.Require("replacements_multi_raising_account_priority", int64(nFocus/4)+1)
+	r.Require("overflow_evictions_checked", int64(nFocus)*2)
+	r.Require("overflow_evictions_with_distinct_priorities", int64(nFocus))
+	r.Require("overflow_after_multi_tx_replacement_no_reset", int64(nFocus/2)+1)
 	r.Require("replacements_accepted", int64(nHist/10)+1)
 	r.Require("evictions_seen", int64(nHist/10)+1)
 	r.Require("limbo_pushes", int64(nHist/10)+1)
